@@ -40,8 +40,33 @@ def case_strategy(draw, maxdepth, odd=False, namings=("distinct", "distinct", "s
     cx = typed.Ctx(draw, cfg)
     env = [("ds", typed.S(typed.EVT))]
     depth = draw(st.integers(2, maxdepth))
-    k = draw(st.integers(0, 13))
-    if k >= 10:
+    k = draw(st.integers(0, 16))
+    if k >= 14:
+        # carry-forward shape: stage 1 packages a member sequence/object together with its own binder, stage 2 runs a
+        # nested operator over the packaged sequence whose lambda refers to the other packaged field
+        a, b = cx.fresh(env), cx.fresh(env)
+        if draw(st.booleans()):
+            s1 = typed._op(cx, "SelectMany", "ds", f"lambda {a}: " + typed._op(cx, "Select", f"{a}.jets()", f"lambda {b}: ({b}, {a})"))
+            et, inner_src, it = ("T", (typed.JET, typed.EVT)), "{P}[0].trks()", typed.TRK
+        else:
+            s1 = typed._op(cx, "Select", "ds", f"lambda {a}: ({a}.jets(), {a})")
+            et, inner_src, it = ("T", (typed.S(typed.JET), typed.EVT)), "{P}[0]", typed.JET
+        if draw(st.booleans()):
+            w = cx.fresh(env)
+            s1 = typed._op(cx, "Where", s1, f"lambda {w}: {typed.gen(cx, typed.bind(env, w, et), typed.B, 1)}")
+        pn = cx.fresh(env)
+        e2 = typed.bind(env, pn, et)
+        cn = cx.fresh(e2)
+        if naming != "distinct" and draw(st.booleans()):
+            cn = draw(st.sampled_from([a, b]))  # the inner binder re-uses a name of the (sibling) first stage
+        e3 = typed.bind(e2, cn, it)
+        iop = draw(st.sampled_from(["Select", "Select", "Where"]))
+        body = typed.gen(cx, e3, typed.B if iop == "Where" else draw(st.sampled_from([typed.F, typed.I, ("T", (typed.F, typed.F))])), draw(st.integers(1, 2)))
+        if cn != pn and draw(st.integers(0, 9)) < 6:  # make sure the other packaged field is used under the inner binder
+            body = f"({body}, {pn}[1].met)" if iop == "Select" else f"({body} or ({pn}[1].met > 1.0))"
+        inner = typed._op(cx, iop, inner_src.replace("{P}", pn), f"lambda {cn}: {body}")
+        src = typed._op(cx, draw(st.sampled_from(["Select", "SelectMany"])), s1, f"lambda {pn}: {inner}")
+    elif k >= 10:
         # nested-chain shape: an outer stage whose lambda body is itself a 2-3 stage chain over a member
         # sequence, every stage free to mention the outer variable (this is where binder handling matters)
         a = cx.fresh(env)
@@ -132,14 +157,14 @@ def _lambda_depth(n, d=0):
     return best
 
 
-def semantic_check(case, r: Result, allow_index_error=False):
+def semantic_check(case, r: Result, allow_index_error=False, total=False):
     """shared by C02 / C14 / C18: returns (tree, result tree or None, expect)"""
     from func_adl.ast.function_simplifier import FuncADLIndexError, simplify_chained_calls
 
     tree = ast.parse(case["src"], mode="eval").body
     env = {"ds": schema.build(case["data"])}
     try:
-        expect = pyeval.materialise(pyeval.evaluate(tree, env))
+        expect = pyeval.materialise(pyeval.evaluate(tree, env, total))
     except RecursionError:
         raise
     except Exception:
@@ -170,7 +195,7 @@ def unp(t):
         return f"<un-unparsable {type(e).__name__}> " + ast.dump(t)[:300]
 
 
-def compare_values(case, r: Result, tree, out, expect):
+def compare_values(case, r: Result, tree, out, expect, total=False):
     fo = pyeval.free_names(tree) | set(pyeval.PRELUDE)
     try:
         fr = pyeval.free_names(out)
@@ -183,7 +208,7 @@ def compare_values(case, r: Result, tree, out, expect):
         return r
     env = {"ds": schema.build(case["data"])}
     try:
-        got = pyeval.materialise(pyeval.evaluate(out, env))
+        got = pyeval.materialise(pyeval.evaluate(out, env, total))
     except Exception as e:
         return r.fail(f"simplified query raised {type(e).__name__}: {e}: {case['src']}  ==>  {unp(out)}")
     if got != expect:
